@@ -470,7 +470,8 @@ def judge_sentinel(run, fs, hexe, sent, lines, iout, base, stats, reported):
             d['no_difference'] += 1
 
 
-RULE = ('metamorphic: every scenario script (fixed op list and configuration) is run at the reference clock origin 5000 and at origins 1000 (0 for cold starts), 2^31-k, 2^31+k, 2^32-k, '
+RULE = ('family devlist-pacing: the device-list pacing histories (claims, arriving information, send failures, steps around 1000 ms and 60 s) each run from 11 clock origins by the device-list harness and model (C18_pacing_shift).  '
+        'metamorphic: every scenario script (fixed op list and configuration) is run at the reference clock origin 5000 and at origins 1000 (0 for cold starts), 2^31-k, 2^31+k, 2^32-k, '
         '2^33-k (k = 1, 50, 200, half the scenario length, scenario length + 10; thorough: 4 further random k), 2^32+5, 2^32+500/700/900 (opened nodes: wrap inside the prelude) and 10^12, in the '
         '64-bit and the 32-bit scheduler build.  No single step and no distance between two polls reaches 2^32 ms.  Scenarios: '
         'directed timelines polling 1 ms before / at / after every library timeout - cold open (0 / 200 ms) with address claim contention (lower / higher / equal NAME during and after the '
@@ -518,6 +519,13 @@ def check(run, replay=None):
         iout = run_both(run, fs, lines, hexe, mexe, FAMILY + fs, fresh)
         judge_pairs(run, fs, hexe, pairs, (lines, iout), stats, reported)
         judge_sentinel(run, fs, hexe, sent, lines, iout, base, stats, reported)
+    # device-list request pacing (N2kDeviceList.h ReadyForRequest*): the pacing histories of the C18 generator, each run from 11 clock
+    # origins by the device-list harness and its model, judged by the C18 oracle (key pacing-origin); theorem C18_pacing_shift
+    dl_replay = bool(replay) and any(l.startswith('# family: devlist-pacing') for l in open(replay))
+    if dl_replay or not replay:
+        import p_C18
+        dls = [l for l in (vlib.read_replay(replay) if dl_replay else vlib.corpus_lines('C18') + p_C18.gen(run.seed, run.tier)) if l.startswith('DLS ')]
+        vlib.correspond(run, 'devlist-pacing', 'h_devlist', 'w64', 'C18', dls, p_C18.oracle, p_C18.nontrivial, known=p_C18.known)
     run.cov['scenarios'] = len(scen)
     run.cov['scenario_kinds'] = sorted({n.split('#')[0] for n, _, _ in scen})
     run.cov['origins_per_scenario'] = [min(len(o) + 1 for _, _, o in scen), max(len(o) + 1 for _, _, o in scen)] if scen else [0, 0]
